@@ -259,6 +259,52 @@ def check_case(run, case, det=False):
     if det:
         check_determinism(run, case)
 
+def check_interrupted(run, case):
+    """CTRL-C during a training.  The trainer of today dies and saves nothing; a ruleset that is left behind all the same must still be a relative-frequency
+    model with the stated coverage arithmetic: P(M) = (1/c - 1) / (s + 1/c - 1) and every supported structure = its raw share / (s + 1/c - 1), s being the
+    supported share of raw_grammar.txt - whatever part of the list it was trained on."""
+    from .. import interrupt
+    c = case['coverage']
+    ref, outs, cleanup = interrupt.interrupted_trainings(case['seed'], case['n_lines'], ['-c', str(c), '-n', '3'], case['points'], tag='c06int')
+    try:
+        def arithmetic(path):
+            d = oracles.Disk(path)
+            raw = [(s_, float(p_)) for s_, p_ in d.base_rows['Raw']] if 'Raw' in d.base_rows else None
+            if raw is None:
+                rows = [l.split('\t') for l in open(os.path.join(path, 'Grammar', 'raw_grammar.txt'), encoding='utf-8').read().split('\n') if l]
+                raw = [(r[0], float(r[1])) for r in rows]
+            sup = {s_: p_ for s_, p_ in raw if 'E' not in s_ and 'W' not in s_}
+            sh = sum(sup.values())
+            den = sh + 1 / c - 1
+            g = {s_: float(p_) for s_, p_ in d.base_rows['Grammar']}
+            bad = []
+            if abs(g.get('M', 0.0) - (1 / c - 1) / den) > 1e-9:
+                bad.append(('M', g.get('M'), (1 / c - 1) / den))
+            for s_, p_ in sup.items():
+                if abs(g.get(s_, 0.0) - p_ / den) > 1e-9:
+                    bad.append((s_, g.get(s_), p_ / den))
+            return bad
+        if not os.path.exists(os.path.join(ref['path'], 'Grammar', 'grammar.txt')):
+            run.inconc('reference training did not complete'); return
+        bad = arithmetic(ref['path'])
+        if bad:
+            run.violation(f'uninterrupted CLI training (coverage {c}): Grammar/grammar.txt is not raw_grammar.txt under the coverage arithmetic: {bad[:3]}', case); return
+        for o in outs:
+            run.ev('trainings_interrupted_by_sigint')
+            if not o['saved']:
+                run.ev('interrupted_trainings_that_saved_nothing'); continue
+            run.ev('interrupted_trainings_that_left_a_ruleset')
+            try:
+                bad = arithmetic(o['path'])
+            except Exception as e:
+                bad = [('unreadable', repr(e), None)]
+            if bad:
+                run.violation(f'trainer.py interrupted by SIGINT {o["at"]:.2f}s into a {ref["seconds"]:.2f}s training left a ruleset whose Grammar/grammar.txt breaks the coverage arithmetic '
+                              f'(coverage {c}): {bad[:3]}', case, observed={'stdout_tail': o['stdout_tail'][-200:], 'stderr_tail': o['stderr_tail'][-200:]}); return
+        run.case(h(['interrupted', case['seed'], case['n_lines'], c]))
+    finally:
+        cleanup()
+
 def run(run, rng):
     run.required_events = ['SEGMENTED', 'lists_compared', 'rulesets_compared', 'determinism_pairs', 'retrainings_compared']
     run.min_distinct = 10
@@ -276,9 +322,14 @@ def run(run, rng):
         run.guard(case, check_case, det=det, seconds=240)
     for i in range(3 if run.tier == 'quick' else 40):
         run.guard(gen_retrain_case(rng), check_retrain, seconds=240)
+    if run.shard[0] == 1 % run.shard[1]:
+        run.guard({'interrupted': True, 'seed': rng.getrandbits(32), 'n_lines': 20000, 'coverage': rng.choice([0.5, 0.6, 0.3]), 'points': 12 if run.tier == 'quick' else 40},
+                  check_interrupted, seconds=600)
 
 def replay(run, case):
-    if case['case'].get('retrain'):
+    if case['case'].get('interrupted'):
+        check_interrupted(run, case['case'])
+    elif case['case'].get('retrain'):
         check_retrain(run, case['case'])
     else:
         check_case(run, case['case'], det=True)
